@@ -137,6 +137,7 @@ type stubT struct {
 	resp     *respBody
 	returned string
 	sawDone  bool
+	ct       string // Content-Type of the response
 }
 
 var errTransport = errors.New("injected transport error")
@@ -203,8 +204,14 @@ func (t *stubT) RoundTrip(req *http.Request) (*http.Response, error) {
 	t.resp = &respBody{data: []byte("response-text"), fail: t.mode == 4}
 	t.returned = "response"
 	verifrt.P("transport:exit")
+	// what the response says it is: dispatchable, without a registered consumer, not parseable, silent
+	t.ct = []string{"text/plain", "application/pdf", "text/plain; charset", ""}[verifrt.Choose("response.content-type", 4)]
+	h := http.Header{}
+	if t.ct != "" {
+		h.Set("Content-Type", t.ct)
+	}
 	return &http.Response{StatusCode: 200, Status: "200 OK", Proto: "HTTP/1.1", ProtoMajor: 1, ProtoMinor: 1,
-		Header: http.Header{"Content-Type": []string{"text/plain"}}, Body: t.resp, Request: req}, nil
+		Header: h, Body: t.resp, Request: req}, nil
 }
 
 // ---- scenarios ----
@@ -221,7 +228,13 @@ type e3Scenario struct {
 	NoSrcFault bool
 	Twin       bool // two overlapping calls on one Runtime
 	OneField   bool // all files under one form field name
+	Debug      bool // Runtime.Debug: request and response are dumped to the logger
 }
+
+type quietLogger struct{}
+
+func (quietLogger) Printf(string, ...interface{}) {}
+func (quietLogger) Debugf(string, ...interface{}) {}
 
 func e3Scenarios() []e3Scenario {
 	return []e3Scenario{
@@ -237,6 +250,7 @@ func e3Scenarios() []e3Scenario {
 		{Name: "multipart-cancelled", Files: 1, Canceller: true, NoSrcFault: true},
 		{Name: "readcloser-payload", Payload: "readcloser", Reuse: true},
 		{Name: "json-payload-cancelled", Payload: "json", Canceller: true},
+		{Name: "json-payload-debug-reuse", Payload: "json", Debug: true, Reuse: true},
 		{Name: "two-overlapping-uploads", Fields: true, Files: 1, Twin: true, NoSrcFault: true},
 		{Name: "two-overlapping-uploads-reuse-faults", Files: 1, Twin: true, Reuse: true},
 	}
@@ -305,6 +319,11 @@ func (w *e3World) body() {
 	}
 	rt := client.New("example.test", basePath, []string{"http"})
 	rt.Transport = w.tr
+	if sc.Debug {
+		// (only with a buffered payload: the dump reads the request body on a goroutine of net/http/httputil)
+		rt.Debug = true
+		rt.SetLogger(quietLogger{})
+	}
 	if sc.Reuse {
 		rt.EnableConnectionReuse()
 	}
